@@ -645,7 +645,7 @@ def _forced_conflict(draw, base):
     n = len(base["cells"])
     shape = draw(st.sampled_from(["del_vs_edit", "edit_vs_del", "both_edit_source", "both_edit_outputs", "both_edit_meta",
                                   "both_insert_same_pos", "both_insert_similar", "both_insert_runs", "both_insert_runs", "insert_next_to_edit", "insert_next_to_del",
-                                  "both_append_nonl", "both_attach", "both_attach_leftover", "same_insert_next_line_edit", "same_insert_next_line_edit", "both_nbmeta", "both_minor", "both_del", "both_ec", "both_change_id",
+                                  "both_append_nonl", "both_attach", "both_attach_leftover", "same_insert_next_line_edit", "same_insert_next_line_edit", "both_add_outputs_shared", "both_add_outputs_shared", "both_nbmeta", "both_minor", "both_del", "both_ec", "both_change_id",
                                   "both_same_edit", "both_edit_same_output", "both_edit_same_output", "transient_meta", "type_vs_edit", "type_vs_edit", "type_vs_edit", "both_rerun", "both_rerun", "both_rerun", "both_rerun", "two_outputs", "two_outputs", "both_insert_block"]))
     usedl, usedr = _ids(l), _ids(r)
     if shape == "both_insert_runs":
@@ -681,7 +681,7 @@ def _forced_conflict(draw, base):
         return l, r, shape
     i = draw(st.integers(0, n - 1))
     code_idx = [k for k, x in enumerate(base["cells"]) if x["cell_type"] == "code"]
-    if code_idx and shape in ("both_edit_outputs", "both_ec", "both_edit_same_output", "transient_meta", "type_vs_edit", "both_rerun", "two_outputs"):
+    if code_idx and shape in ("both_add_outputs_shared", "both_edit_outputs", "both_ec", "both_edit_same_output", "transient_meta", "type_vs_edit", "both_rerun", "two_outputs"):
         i = draw(st.sampled_from(code_idx))      # shapes about outputs / execution counts need a code cell
     c = base["cells"][i]
     dve = draw(st.sampled_from([None, None, ["source", "rerun"], ["source", "toggle"], ["rerun"], ["rerun", "toggle"], ["source", "outputs"]]))
@@ -745,6 +745,18 @@ def _forced_conflict(draw, base):
                 cc["source"] = "".join(ls)
             else:
                 cc["outputs"] = [{"output_type": "stream", "name": "stdout", "text": "".join(ls)}] + cc["outputs"][:1]
+    elif shape == "both_add_outputs_shared" and c["cell_type"] == "code":
+        # both sides re-ran the cell and got new outputs at one position that agree in some (a shared prefix / suffix) and differ in others
+        pos = draw(st.integers(0, len(c["outputs"])))
+        shared = [draw(output()) for _ in range(draw(st.integers(1, 2)))]
+        own_l = [draw(output()) for _ in range(draw(st.integers(0, 2)))]
+        own_r = [draw(output()) for _ in range(draw(st.integers(0 if own_l else 1, 2)))]
+        order = draw(st.sampled_from(["shared_first", "shared_first", "shared_last", "around"]))
+        for side, own in ((l, own_l), (r, own_r)):
+            new = copy.deepcopy(shared + own if order == "shared_first" else own + shared if order == "shared_last" else shared[:1] + own + shared[1:])
+            side["cells"][i]["outputs"][pos:pos] = new
+        if draw(st.booleans()):
+            l["cells"][i]["execution_count"] = r["cells"][i]["execution_count"] = 11
     elif shape == "both_change_id":
         # both sides re-created the cell (cut and paste): same content, a new id on each side
         if "id" in c:
